@@ -30,9 +30,7 @@ theorem fieldsCert_stage_nil (W : World) : ∀ (fields : List QField) (vid : Vid
     rcases List.mem_cons.1 he' with rfl | hmem
     · obtain ⟨toV, vsC', sfsC, _, htoV, htoVid, hflC⟩ := hC.dest
       obtain ⟨fromV, hfromV⟩ := Option.isSome_iff_exists.1 hfromV
-      have hrecNone : e'.recursive = none := by
-        cases kind <;> simp_all [EdgeKindOK]
-      exact expandEdge_nil W e' (by rw [hfrom]; exact hfromV) htoV hrecNone
+      exact expandEdge_nil' W e' (by rw [hfrom]; exact hfromV) htoV
         (enterVertex_nil W e'.toVid toV htoV htoVid L _ hflC)
     · rcases List.mem_append.1 hmem with h | h
       · exact nodeCert_stage_nil W child e.toVid L esC vsC hC e' h
@@ -93,8 +91,8 @@ theorem interp_eq_spec_of_cert (W : World) (q : Query) (ir : IRQuery) (vs : List
     rw [← hl]
     refine this.mono ?_
     intro c' hc'
-    refine ⟨by rw [hc'.keys]; rfl, ?_⟩
-    obtain ⟨_, _, _, _, _, hfv, _⟩ := hc'
+    refine ⟨by rw [hc'.1.keys]; rfl, ?_⟩
+    obtain ⟨_, _, _, _, _, hfv, _⟩ := hc'.1
     exact hfv
   revert hsim
   generalize flatMapO (fun x => (enterVertex W.env W.comp V [Ctx.new (some x)]).toOption.bind
